@@ -392,7 +392,8 @@ class Facts:
             if blk is None or blk["t"]["k"] != "return":
                 continue
             asg = [s for s in blk["s"] if s["k"] == "assign" and s["lhs"]["l"] == 0 and not s["lhs"]["p"]]
-            if len(asg) == 1 and asg[0]["rv"]["k"] == "use" and asg[0]["rv"]["op"]["k"] == "const" and "int" in asg[0]["rv"]["op"]:
+            if len(asg) == 1 and asg[0]["rv"]["k"] == "use" and asg[0]["rv"]["op"]["k"] == "const" and \
+                    ("int" in asg[0]["rv"]["op"] or str(asg[0]["rv"]["op"].get("v", "")).startswith('"')) and "def" not in asg[0]["rv"]["op"]:
                 vals[b.def_] = asg[0]["rv"]["op"]
 
         def walk_json(x):
@@ -400,9 +401,12 @@ class Facts:
                 if x.get("k") == "const" and "def" in x and "promoted" not in x and "fn" not in x and "int" not in x:
                     src = vals.get(x["def"])
                     if src is not None:
-                        x["int"] = src["int"]
+                        if "int" in src:
+                            x["int"] = src["int"]
                         x["named"] = x["v"]
                         x["v"] = src["v"]
+                        if "int" not in src:
+                            del x["def"]         # a named string constant is the literal
                     elif canon(x["def"]) in self.STD_CONSTS:
                         x["int"] = str(self.STD_CONSTS[canon(x["def"])])
                         x["named"] = x["v"]
@@ -518,6 +522,13 @@ class Facts:
                     m[c.name].append(c)
                     if c.resolved:
                         m[c.resolved].append(c)
+                    if c.name == "std::convert::Into::into":
+                        # x.into() through the blanket impl runs the crate's `impl From<T> for U`
+                        mm_ = re.match(r"^<(.+) as std::convert::Into<(.+)>>::into$", c.full)
+                        if mm_:
+                            cand = "<%s as std::convert::From<%s>>::from" % (mm_.group(2), mm_.group(1))
+                            if cand in self.by_cdef and cand != c.resolved:
+                                m[cand].append(c)
             self._callers = m
         return self._callers
 
